@@ -114,6 +114,11 @@ class Builder(Client):
             len(own) < cfg["max_circuits"] and r.random() < 0.12
         ):
             return self.create()
+        arrs = [c for c in w.extra.get("caller_arrays", {}) if w.has("c", c)]
+        if arrs and r.random() < 0.03:
+            # the caller reuses the buffer it built a Unitary from
+            return {"op": "caller_mutate", "what": "array",
+                    "c": self.pick(arrs), "seed": r.randrange(1 << 30)}
         cid = self.pick(own)
         return self.primitive(cid)
 
@@ -163,6 +168,11 @@ class Builder(Client):
         kinds = ["ps", "ps", "loss", "barrier"]
         if self.cfg.get("no_loss") or nloss >= self.cfg.get("max_loss", 6):
             kinds = ["ps", "ps", "barrier"]
+            if self.cfg.get("no_loss") and nloss < 3 and r.random() < 0.08:
+                # a loss element whose value is exactly zero: the circuit is
+                # still lossless
+                return {"op": "loss", "c": cid, "m": r.randrange(nu), "l": 0} \
+                    if nu else None
         if nu >= 2:
             kinds += ["bs", "bs", "bs", "mode_swaps", "mode_swaps"]
         if c.input_modes >= 2 and len(c.heralds["input"]) < self.cfg["max_heralds"]:
@@ -369,6 +379,41 @@ class Rewriter(Client):
         w.stats["intent:ancilla_sandwich"] += 1
         return self.next_queued()
 
+    def self_sum(self):
+        """A block that holds several mode swaps, summed with itself (or with
+        its shallow copy) through `+`: the same component objects then occur
+        twice in one circuit when it is rewritten."""
+        r, w = self.rng, self.w
+        if len(self.own_circuits()) + 3 > self.cfg["max_circuits"] + 3:
+            return None
+        nu = r.randint(3, 5)
+        blk, tot = w.new_id("c"), w.new_id("c")
+        a, b = sorted(r.sample(range(nu), 2))
+        if b - a < 2:
+            a, b = 0, nu - 1
+        q = [{"op": "new_circuit", "n": nu, "out": blk},
+             {"op": "bs", "c": blk, "m1": a, "m2": b,
+              "r": round(r.uniform(0.2, 0.8), 3)}]
+        if r.random() < 0.5:
+            q.append({"op": "ps", "c": blk, "m": r.randrange(nu),
+                      "phi": round(r.uniform(0.1, 6), 3)})
+        if r.random() < 0.5:
+            c, d = r.sample(range(nu), 2)
+            q.append({"op": "mode_swaps", "c": blk, "swaps": [[c, d], [d, c]]})
+        q.append({"op": "remove_nonadj", "c": blk})
+        other = blk
+        if r.random() < 0.4:
+            other = w.new_id("c")
+            q.append({"op": "copy", "c": blk, "out": other})
+        q.append({"op": "plus", "a": blk, "b": other, "out": tot})
+        q.append({"op": r.choice(["compress", "compress", "unpack",
+                                  "remove_nonadj"]), "c": tot})
+        if r.random() < 0.5:
+            q.append({"op": "compress", "c": blk})
+        self.queue = q
+        w.stats["intent:self_sum"] += 1
+        return self.next_queued()
+
     def parameter_sandwich(self):
         """Swaps around a component whose *Parameter* currently makes it an
         identity (loss 0, phase 0, reflectivity 1), a rewrite, and only then a
@@ -544,6 +589,10 @@ class Rewriter(Client):
                 continue
             if o["op"] in ("new_circuit", "new_param"):
                 return o
+            if o["op"] == "plus":
+                if self.w.has("c", o["a"]) and self.w.has("c", o["b"]):
+                    return o
+                continue
             if self.w.has("c", o.get("c", o.get("parent"))):
                 return o
         return None
@@ -557,6 +606,8 @@ class Rewriter(Client):
             return self.swap_chain()
         if r.random() < 0.03:
             return self.ancilla_sandwich()
+        if r.random() < 0.03:
+            return self.self_sum()
         if r.random() < 0.03 and self.cfg.get("max_params", 0) > 0:
             return self.parameter_sandwich()
         k = r.choice(["unpack", "compress", "remove_nonadj", "copy", "copy",
@@ -607,6 +658,14 @@ class Tuner(Client):
                     w.stats["fault:heal"] += 1
                     return {"op": "param_set", "p": pid, "value": v,
                             "heal": True}
+        bounded = [q for q in pids if w.pool["p"][q].has_bounds()]
+        if bounded and cfg.get("faults") and r.random() < 0.03:
+            # F-reject: a value the bounds cannot even be compared with
+            w.stats["fault:reject_issued"] += 1
+            return {"op": "param_set", "p": self.pick(bounded),
+                    "value": r.choice([{"cx": [1.0, 1.0]}, {"cx": [0.5, 1e-3]},
+                                       "x", None]),
+                    "reject": True}
         if getattr(self, "freeze_next", None) is not None:
             cid, self.freeze_next = self.freeze_next, None
             if w.has("c", cid) and len(self.own_circuits()) < cfg["max_circuits"] + 2:
